@@ -407,7 +407,7 @@ func (f *g2lFn) addrOf(x *ast.UnaryExpr) string {
 	if o == nil || f.names[o] == "" || o.Parent() == f.g.pkg.Scope() {
 		f.fail("`%s`: the address of something other than a local variable", f.src(x))
 	}
-	if f.mutated[o] {
+	if f.mutated[o] && !f.addrSafe(x, o) { // go2lean_effects.go: assigned only before this point
 		f.fail("`%s`: the variable is assigned after its declaration (the pointer would see the change)", f.src(x))
 	}
 	if f.inLoop > 0 {
@@ -637,6 +637,7 @@ func (g *g2l) headerExtra() string {
 		b.WriteString("  * the named types in namedTypes are opaque: values of the Lean type given\n" +
 			"    there, touched only by the primitives of the configuration.\n")
 	}
+	b.WriteString(g.headerEff()) // go2lean_effects.go
 	return b.String()
 }
 
@@ -671,6 +672,7 @@ func (g *g2l) emitExtra(w func(string, ...any), okUnits []string) {
 		okSet[k] = true
 	}
 	g.emitInOutFacts(w, okSet)
+	g.emitEffFacts(w, okSet) // go2lean_effects.go
 	w("/-- opaque named types in use: Go type, its Go declaration, the Lean type that stands for it -/\n")
 	w("def namedTypes : List (String × String × String) := [")
 	for i, k := range sortedKeys(g.x.namedUsed) {
